@@ -6,12 +6,12 @@ CONSTANTS MaxTok, Mode   \* Mode = "nowiki" | "comment"
 Tokens == { <<"{", "{", "T", "1", "|", "x", "}", "}">>, <<"{", "{", "{", "1", "}", "}", "}">>, <<"[", "[", "a", "]", "]">>,
             <<"{", "|">>, <<"|", "}">>, <<"|", "-">>, <<"*">>, <<"#">>, <<":">>, <<";">>, <<"<", "b", ">">>, <<"<", "/", "b", ">">>,
             <<"'", "'">>, <<"|">>, <<"=", "=">>, <<"_", "_", "T", "O", "C", "_", "_">>, <<"h", "t", "t", "p", ":", "/", "/", "x", ".", "y">>,
-            <<"<", "!", "-", "-">>, <<"-", "-", ">">>, <<"<", "/", "n", "o", "w", "i", "k", "i">>, <<"a">>, <<"SP">>, <<"NL">>,
+            <<"<", "!", "-", "-">>, <<"-", "-", ">">>, <<"<", "/", "n", "o", "w", "i", "k", "i">>, <<"a">>, <<"a", "b", "c">>, <<"SP">>, <<"NL">>,
             <<"-", "-", "-", "-">>, <<"\"">>, <<"!">>, <<"<", "n", "o", "w", "i", "k", "i", ">">> }
 RECURSIVE Flat(_)
 Flat(ts) == IF ts = <<>> THEN <<>> ELSE Head(ts) \o Flat(Tail(ts))
 Payloads == { Flat(ts) : ts \in UNION { [1..n -> Tokens] : n \in 1..MaxTok } }
-Contexts == {"top", "targ", "link", "list", "cell", "multi", "upper"}
+Contexts == {"top", "targ", "link", "list", "cell", "multi", "upper", "ucarg", "ucbody"}
 
 \* comment documents: text / comment pieces; comment payloads avoid "-->" and nowiki tags
 TextPieces == { <<"a">>, <<"b", "NL">>, <<"NL">>, <<"*", "SP", "c">>, <<"{", "{", "T", "1", "|", "x", "}", "}">>, <<"NL", "=", "=", "h", "=", "=", "NL">>, <<>> }
